@@ -379,6 +379,12 @@ func (a *AliveDialerSet) NotifyLatencyChange(dialer *Dialer, alive bool) {
 	} else if alive && minPolicy && a.minLatency.dialer == nil {
 		// Use first dialer if no dialer has alive state (usually happen at the very beginning).
 		a.minLatency.dialer = dialer
+		// The group may have been announced as not alive when its last alive dialer
+		// died; a dialer revived without a latency sample (e.g. by successful
+		// traffic) must announce it alive again. The callback is idempotent.
+		a.mu.Unlock()
+		a.aliveChangeCallback(true)
+		a.mu.Lock()
 		if a.log.IsLevelEnabled(logrus.InfoLevel) {
 			a.log.WithFields(logrus.Fields{
 				"group":   a.dialerGroupName,
